@@ -718,6 +718,32 @@ def random_universe(rng) -> dict:
     return {"L": length, "circ": circ, "genes": genes, "areas": areas}
 
 
+def bridged_over_origin_universe(rng) -> dict:
+    """ a ring on which an area over the origin and an area in front of the origin are tied into one region by a third that
+        overlaps both: the region then lists its members in the order they were merged, not in the order of their numbers """
+    length = rng.choice([12, 14, 16])
+    reach = rng.randrange(1, 3)
+    over = {"parts": [[length - 2, length], [0, reach]], "strand": 1}
+    front_start = rng.randrange(3, length - 7)
+    front = {"parts": [[front_start, length - 4]], "strand": 1}
+    bridge = {"parts": [[length - 5, length - 1]], "strand": 1}
+
+    def proto(extent, product):
+        first = extent["parts"][0][0]
+        return {"kind": "proto", "core": {"parts": [[first, first + 1]], "strand": 1}, "extent": extent, "product": product,
+                "pay": rng.choice([0, 1, 2])}
+
+    def sub(extent):
+        return {"kind": "sub", "core": extent, "extent": extent, "product": "sub", "pay": rng.choice([0, 1])}
+    kinds = rng.choice(["pps", "psp", "sps", "ppp"])
+    areas = [proto(ext, name) if kind == "p" else sub(ext)
+             for kind, ext, name in zip(kinds, (over, front, bridge), "abc")]
+    rng.shuffle(areas)
+    genes = [{"loc": {"parts": [[front_start + 1, front_start + 2]], "strand": rng.choice([1, -1])}, "core_for": ["b"], "pay": 0},
+             {"loc": {"parts": [[length - 2, length - 1]], "strand": 1}, "core_for": ["a"], "pay": rng.choice([0, 3])}]
+    return {"L": length, "circ": True, "genes": genes, "areas": areas}
+
+
 def pipeline_history(rng, uni: dict) -> list:
     """ the order of a real run: genes, protoclusters and subregions in any order, then candidates, then regions;
         sometimes a late gene """
